@@ -150,12 +150,13 @@ class Url:
             return username, password, parts[0], None
         # Host and port found
         if num_parts == 2:
-            return username, password, COLON.join(parts[:-1]), int(parts[-1])
+            # An empty port ("host:") means the default port
+            return username, password, COLON.join(parts[:-1]), int(parts[-1]) if parts[-1] else None
         # More than a single COLON i.e. IPv6 scenario
         try:
             # Try to resolve last part as an int port
             last_token = parts[-1].split(COLON)
-            port = int(last_token[-1])
+            port = int(last_token[-1]) if last_token[-1] else None
             host = COLON.join(parts[:-1]) + COLON + \
                 COLON.join(last_token[:-1])
         except ValueError:
